@@ -41,13 +41,14 @@ def main():
         not_built.update(json.load(open(nb_path)))
     from detsim import clock
     clock.install_global()
+    ready = set(open(os.path.join(VERIF, "tools", "ready.txt")).read().split())
     for pid in ids:
         f = os.path.join(VERIF, "props", pid.lower() + ".py")
         if pid in NA:
             na.append({"property_id": pid, "reason": NA[pid]})
             continue
         mod = None
-        if os.path.exists(f):
+        if os.path.exists(f) and pid in ready:
             try:
                 mod = importlib.import_module("props." + pid.lower())
             except Exception as e:
